@@ -325,7 +325,7 @@ def _gen_access(rng, tag=None):
 def _gen_cli(rng, sub=False):
     names, headers, seqs, style = _gen_file(rng)
     beds = _gen_beds(rng, names, seqs)
-    while sub and not any(_runs(s) for s in seqs):
+    while sub and not any(_runs(s) for n, s in zip(names, seqs) if n in CANON[:12]):
         names, headers, seqs, style = _gen_file(rng)
         beds = _gen_beds(rng, names, seqs)
     extra = {"beds": beds, "bedfmt": [rng.choice(BEDFMTS) for _ in beds]}
